@@ -564,3 +564,37 @@ Proof.
   { rewrite HL. apply Forall_app; auto. }
   rewrite EW by auto. rewrite HL. reflexivity.
 Qed.
+
+(* the invariant spelled out for the architectures reachable from `new(n)` *)
+Theorem run_content n cs :
+  let st := arch_run false (arch_new n) cs in
+  ar_in st = n /\ layers_out_dim n (arch_layers st) = Some (ar_cur st) /\
+  arch_shapes st = shapes_after n (arch_layers st) /\ length (arch_shapes st) = length (arch_layers st).
+Proof.
+  intros st. pose proof (run_inv n cs) as [H1 H2]. fold st in H1, H2.
+  assert (Hin : ar_in st = n) by (unfold st; rewrite run_in by apply new_inv; reflexivity).
+  rewrite Hin in H1, H2. repeat split; auto. rewrite H2. eapply shapes_after_length; eauto.
+Qed.
+
+(* non-vacuity: valid and invalid calls mixed; 3 -> 2 linear, relu layer, bad index, bad linear, argmax, linear on the
+   1-dimensional result, argmax on one component (rejected) *)
+Definition ex_lin32 : aff := {| a_in := 3; a_mat := [[1; 0; 0]; [0; 1; 1]]; a_bias := [0; 1] |}.
+Definition ex_lin12 : aff := {| a_in := 1; a_mat := [[1]; [1]]; a_bias := [0; 0] |}.
+Definition ex_calls : list call :=
+  [CLinear ex_lin32; CRelu; CPHardTanh 2; CLinear ex_lin32; CArgmax; CArgmax; CLinear ex_lin12; CPLeaky 1 (1 + 1)].
+Example ex_run :
+  arch_results false (arch_new 3) ex_calls =
+    [None; None; Some (EIndex 2 2); Some (EDim 2 3); None; Some (EDim 2 1); None; None] /\
+  arch_layers (arch_run false (arch_new 3) ex_calls) =
+    [LLinear ex_lin32; LReLU 0; LReLU 1; LArgmax; LLinear ex_lin12; LLeaky 1 (1 + 1)] /\
+  arch_shapes (arch_run false (arch_new 3) ex_calls) = [2; 2; 2; 1; 2; 2]%nat /\
+  ar_cur (arch_run false (arch_new 3) ex_calls) = 2%nat /\
+  distill_shape false 3 (arch_layers (arch_run false (arch_new 3) ex_calls)) = DOk 2 2 /\
+  (exists s', extract_range (arch_run false (arch_new 3) ex_calls) 3 5 = XOk s' /\
+              arch_layers s' = [LArgmax; LLinear ex_lin12] /\ ar_in s' = 2%nat /\ ar_cur s' = 2%nat) /\
+  net_eval sixth (arch_layers (arch_run false (arch_new 3) ex_calls)) [1; 1 + 1; - (1)] = [1; 1] /\
+  eval (distill_ref sixth 3 (arch_layers (arch_run false (arch_new 3) ex_calls))) [1; 1 + 1; - (1)] = Some [1; 1].
+Proof.
+  repeat split; try (vm_compute; reflexivity).
+  eexists. repeat split; vm_compute; reflexivity.
+Qed.
